@@ -124,11 +124,19 @@ func genWorkload(r *rand.Rand, index int, budget int) *Workload {
 	readers := 0
 	if workers >= 3 && r.Intn(4) == 0 {
 		readers = workers - 1 - r.Intn(2)
-		delW = 15 + r.Intn(15)
 	}
 	w.Readers = readers
 	for g := 0; g < workers; g++ {
 		var prog []SOp
+		for readers > 0 && g < workers-readers && len(prog) < per {
+			// a writer of that profile: fill several branches, then remove many leaves with one delete
+			for k := 3 + r.Intn(6); k > 0 && len(prog) < per; k-- {
+				prog = append(prog, SOp{Kind: "add", Path: randPath(r, 2, 3), Val: (g+1)*1000 + len(prog) + 1})
+			}
+			pat := [][]string{{}, {"*"}, {stressTop[r.Intn(len(stressTop))]}, {"*", "*"}, {"*", stressAlphabet[r.Intn(len(stressAlphabet))]},
+				{stressTop[r.Intn(len(stressTop))], "*"}, {"*", "*", stressAlphabet[r.Intn(len(stressAlphabet))]}}[r.Intn(7)]
+			prog = append(prog, SOp{Kind: []string{"del", "del", "del", "delcond", "walkdel"}[r.Intn(5)], Path: pat})
+		}
 		for i := 0; len(prog) < per; i++ {
 			val := (g+1)*1000 + len(prog) + 1
 			x := r.Intn(100)
